@@ -259,7 +259,7 @@ def paths(ctx, headers, depth, seed, cap):
 
 # ---------------------------------------------------------------------------------------------------
 LITERAL = ['qu"ote', '"quoted"', '"lead', 'trail"', 'a,b', ',', 'word with space', ' lead', 'trail ', 'ñandú', '漢字', '"', '""', '"a\tb"'.replace('\t', ' '),
-           "it's", 'x;y', 'a|b', '\\n', '#', 'tab"']
+           "it's", 'x;y', 'a|b', '\\n', '#', 'tab"', '\ufeffbom', 'zero\u200bwidth', '\u00a0nbsp\u00a0', 'e\u0301', '\u3000wide']
 
 
 def _literal_job(job):
@@ -335,6 +335,54 @@ def _literal_job(job):
     return acc
 
 
+def _big_file_job(job):
+    """the giant document read from a FILE, padded (length of a comment line before the header) so that byte offset `boundary` of the file falls INSIDE a
+    multi-byte character: a reader that looks at the file in blocks, or sniffs an encoding from its head, must still take every cell literally"""
+    import os
+    import tempfile
+    from .. import docspace as D
+    seed, boundary = job
+    acc = Acc()
+    m = D.giant_model(seed)
+    base = m.text()
+    pad = None
+    for k in range(0, 400):
+        b = ('!!!PAD: ' + 'x' * k + '\n' + base).encode('utf-8')
+        if len(b) > boundary and b[boundary] & 0xC0 == 0x80:
+            pad = k
+            break
+    if pad is None:
+        acc.caps.append(f'no padding puts byte {boundary} inside a multi-byte character')
+        return acc
+    m2 = D.giant_model(seed)
+    m2.rows.insert(0, ('g', '!!!PAD: ' + 'x' * pad))
+    m2.header_row += 1
+    for k_, r in m2.rows:
+        if k_ == 'c':
+            for c in r:
+                c.row += 1
+    text = m2.text()
+    case = {'text': f'(giant document, seed {seed}, padded by {pad} so that byte {boundary} is inside a character)', 'big_file': [seed, boundary]}
+    fd, path = tempfile.mkstemp(suffix='.krn', prefix='kv02_')
+    try:
+        with os.fdopen(fd, 'wb') as f:
+            f.write(text.encode('utf-8'))
+        acc.count('transitions')
+        acc.count('evaluations')
+        acc.count('traces')
+        acc.nontriv(('bigfile', seed, boundary))
+        try:
+            fdoc, ferrs = kp.load(path)
+        except Exception as e:  # noqa
+            acc.violation(Viol('literal-cell', 'import-raises-when-loaded-from-a-file', case, 'document', f'{type(e).__name__}: {str(e)[:80]}'))
+            return acc
+        for s, d in check_tree(m2, fdoc)[:2]:
+            acc.violation(Viol('literal-cell', s + '-when-loaded-from-a-file', case, 'cell text taken literally', d))
+    finally:
+        os.unlink(path)
+    return acc
+
+
 def run(ctx):
     seed = ctx.seed
     quick = ctx.quick
@@ -378,6 +426,7 @@ def run(ctx):
         big.count('evaluations')
         big.nontriv(digest(m.text()))
     ctx.merge(big)
+    ctx.pmap(_big_file_job, [(seed, b) for b in ((4096, 8192, 65536) if quick else (1024, 2048, 4096, 8192, 16384, 32768, 65536))], chunksize=1)
     hdr_paths = [['**kern'], ['**kern', '**kern'], ['**kern', '**text']] if quick else \
         [['**kern'], ['**kern', '**kern'], ['**kern', '**text'], ['**text', '**kern', '**kern'], ['**root', '**fing', '**kern']]
     for h in hdr_paths:
@@ -402,6 +451,8 @@ def run(ctx):
 def replay(case):
     acc = Acc()
     text = case['text']
+    if 'big_file' in case:
+        return _big_file_job(tuple(case['big_file'])).viol
     if 'tlc' in case:
         from .. import tlcspine
         return tlcspine.replay(case)
